@@ -662,7 +662,15 @@ class Engine:
             if len(a.items) != len(b.items):
                 return FALSE
             return AND(*[self.eq(st, x, y, node) for x, y in zip(a.items, b.items)])
+        if isinstance(a, VAny) and isinstance(b, VAny):
+            return TRUE if a.t.eq(b.t) else z3.Function('any_eq_any', IntS, IntS, BoolS)(a.t, b.t)
         if isinstance(a, VAny) or isinstance(b, VAny):
+            x, y = (a, b) if isinstance(a, VAny) else (b, a)
+            # an opaque value compared with a literal: an uninterpreted but *deterministic* test
+            if isinstance(y, VStr) and y.lit is not None:
+                return z3.Function('any_eq_str_%s' % ''.join('%02x' % ord(c) for c in y.lit[:12]), IntS, BoolS)(x.t)
+            if isinstance(y, (VInt, VBool)):
+                return z3.Function('any_eq_int', IntS, IntS, BoolS)(x.t, self.num(y))
             return fresh_bool('eqany')
         if isinstance(a, VFn) or isinstance(b, VFn):
             if isinstance(a, VFn) and isinstance(b, VFn):
